@@ -17,7 +17,7 @@ from common import (Outcome, ToolError, cfg, log, run_harness, run_tlc, sample, 
                     workdir)
 import re
 
-AS_BUILT = ["D08_update_chunked_empty", "D24_pending_ignored", "D24_index_interleaved", "D01_commit_growth"]
+AS_BUILT = ["D08_update_chunked_empty", "D24_pending_ignored", "D24_index_interleaved", "D01_commit_growth", "D26_value_rewritten"]
 
 # which property owns which observation (mismatch name -> property)
 OWNER = {
@@ -26,7 +26,8 @@ OWNER = {
     "frame.ci": "C06", "frame.cc": "C06", "frame.meta": "C08", "count": "C01", "nfid": "C06", "file.wal_size": "C01",
     "file.wal_seq": "C01", "file.chain_seq": "C01", "file.present": "C01", "handle": "C01", "ticket": "C25",
     "capacity": "C25", "stats.count": "C01", "dir": "C19", "result": None, "timeline": "C15", "by_uri": "C08",
-    "put.seq": "C01", "put.nfid": "C06", "verify": "C01", "payload_end": "C24", "doctor.verify": "C21", "vecset": "C14", "ro.file": "C18",
+    "put.seq": "C01", "put.nfid": "C06", "verify": "C01", "payload_end": "C24", "doctor.verify": "C21", "vecset": "C14", "ro.file": "C18", "card.query": "C27", "card.temporal": "C27", "card.set": "C27", "card.id": "C27",
+    "card.source": "C26", "card.value": "C26", "card.queue": "C26",
 }
 
 
@@ -480,7 +481,11 @@ def engine(tier):
     if mc.error:
         log(mc.output[-3000:])
         raise ToolError("TLC failed on MC_Mv2Core")
+    mcc = run_tlc("CardsTrack", cfg({"MaxCards": 3 if quick else 4, "Times": "{5, 10}"}, invariants=["ContractHolds"]), "mccards", workers=4, timeout=600)
+    if mcc.error or mcc.violated:
+        raise ToolError("CardsTrack: the transcription violates the C27 contract or TLC failed (%s)" % mcc.violated)
     return {
+        "cards_model": {"states": mcc.distinct},
         "n_scenarios": len(scs), "n_random": n_basic, "n_tlc_generated": n_tlc, "accepted": accepted, "events": events,
         "diags": diags, "deviations": devs,
         "mc": {"states": mc.distinct, "transitions": mc.generated, "violated": mc.violated, "timed_out": mc.timed_out,
@@ -604,9 +609,49 @@ def fam_maintenance(rng, quick):
     return out
 
 
-EXTRA_FAMILIES += [fam_many_small, fam_tickets, fam_known, fam_maintenance]
+def fam_cards(rng, quick):
+    """C27: explicit memory cards, temporal queries, persistence through commit / close / reopen / lost handle.
+    C26: cards and enrichment-queue entries created by puts (triplet extraction, instant index) when WAL sequence
+    numbers and frame ids have drifted apart."""
+    out = []
+    for _ in range(2 if quick else 12):
+        ops = [{"op": "create"}, {"op": "put", "uri": "mv2://src", "pay": 1, "cls": "text", "size": 80, "ts": 1}, {"op": "commit"}]
+        ents, slots, times = ["e1", "e2"], ["s1", "s2"], [5, 10, 10, 20]
+        def cp():
+            d = {"op": "card_put", "entity": rng.choice(ents), "slot": rng.choice(slots), "value": rng.randint(1, 5), "frame": 0,
+                 "rel": rng.choice(["sets", "updates", "extends", "retracts", "updates"])}
+            d[rng.choice(["event_date", "document_date"])] = rng.choice(times)
+            return d
+        def queries():
+            qs = []
+            for e in ents:
+                for sl in slots:
+                    qs.append({"op": "card_current", "entity": e, "slot": sl})
+                    for t in rng.sample([0, 5, 7, 10, 15, 20, 25], 3):
+                        qs.append({"op": "card_at", "entity": e, "slot": sl, "t": t})
+            return qs
+        ops += [cp() for _ in range(rng.randint(2, 6))] + queries() + [{"op": "cards"}, {"op": "commit"}, {"op": "cards"}, {"op": "close"},
+                {"op": "open"}, {"op": "cards"}] + queries() + [cp(), cp(), {"op": "cards"}, {"op": "abandon"}, {"op": "open"}, {"op": "cards"}]
+        ops += queries()[:6] + [cp(), {"op": "close"}, {"op": "open_ro"}, {"op": "cards"}, {"op": "close"}]
+        out.append(ops)
+    texts = ["Alice works at Acme Corp. Alice lives in Paris.", "Carol works at Initech. Carol lives in Berlin.",
+             "Bob is the manager of Alice. Bob works at Globex."]
+    for k in range(1 if quick else 4):
+        ops = [{"op": "create"}, {"op": "put", "uri": "mv2://x", "pay": 1, "cls": "text", "size": 60, "ts": 1}, {"op": "commit"},
+               {"op": "delete", "frame": 0}, {"op": "commit"}]
+        for i, t in enumerate(texts if k % 2 == 0 else texts[:2]):
+            ops.append({"op": "put", "uri": "mv2://t%d" % i, "pay": 10 + i, "cls": "raw", "text": t, "ts": 2 + i, "triplets": True, "instant": True,
+                        "enable_embedding": i % 2 == 0})
+            if k >= 2:
+                ops.append({"op": "cards"})
+        ops += [{"op": "cards"}, {"op": "commit"}, {"op": "cards"}, {"op": "close"}, {"op": "open"}, {"op": "cards"}, {"op": "close"}]
+        out.append(ops)
+    return out
 
-DEV_OWNER = {"D01_commit_growth": "C01", "D08_update_chunked_empty": "C08", "D24_pending_ignored": "C24",
+
+EXTRA_FAMILIES += [fam_many_small, fam_tickets, fam_known, fam_maintenance, fam_cards]
+
+DEV_OWNER = {"D26_value_rewritten": "C26", "D01_commit_growth": "C01", "D08_update_chunked_empty": "C08", "D24_pending_ignored": "C24",
              "D24_payload_end_beyond_capacity": "C24"}
 
 PROP_NOTE = {
@@ -618,6 +663,8 @@ PROP_NOTE = {
     "C15": "exact timeline() sequence for every issued query",
     "C19": "directory listing after every call",
     "C24": "payload end vs capacity after every commit; CapacityExceeded results",
+    "C26": "source frame id / URI of every card extracted during a put, whether the frame text contains the card value, enrichment-queue entries (all after the WAL sequence and the frame ids have drifted apart)",
+    "C27": "get_current_memory / get_memory_at_time answers (exact card), the explicit card set after commit, close, reopen (rw and ro) and after a lost handle",
     "C18": "a read-only handle leaves bytes, length and mtime of the file unchanged after every call; it shows the last committed frame table (no pending records)",
     "C21": "doctor results (status, verification), the frame table / payloads / embeddings after doctor, a second run reporting Clean",
     "C42": "every observation at or right after vacuum (direct or through doctor): ids, status, payload ids, descriptive fields, embeddings, timeline, verify",
